@@ -6,7 +6,7 @@
     A point set is three coordinate columns swept with one schedule, so the statements about one
     column [s : list Q] hold for x, y and z alike. *)
 From Coq Require Import List Bool Arith ZArith QArith Qabs Lia Lqa.
-From CB Require Import Base.Hex Model.C15_Smooth Proofs.C15_Smooth Proofs.C15_SmoothGraph Proofs.C15_Fast Proofs.C15_Lattice Proofs.C15_Converge.
+From CB Require Import Base.Hex Model.C15_Smooth Proofs.C15_Smooth Proofs.C15_SmoothGraph Proofs.C15_Fast Proofs.C15_Converge Proofs.C15_LatticeGen.
 From CB Require Import Gen.C15.Tables.
 Import ListNotations.
 Close Scope Q_scope.
@@ -98,12 +98,12 @@ Definition C15_monotone_stmt : Prop :=
     (forall jn, In jn sched -> harmonic_at h jn) ->
     within M s h -> within M (iterate k sched s) h.
 
-(** structured nx x ny maps: the boundary is the border, every inner point has its 4 lattice neighbours,
-    every regular (affine) lattice is left unchanged by any number of sweeps with any fixed set, and it
-    is the only such configuration with that border, and from any interior positions the sweeps converge to
-    it (a regular boundary yields the regular lattice).  Proved for 1 <= nx, ny <= 10 (finite part) and all
-    rational origins and steps. *)
-Definition lattice_size (nx ny : nat) : Prop := 1 <= nx <= 10 /\ 1 <= ny <= 10.
+(** structured nx x ny maps of every size (nx, ny >= 1, no upper bound): the boundary is the border, every
+    inner point has its 4 lattice neighbours, every regular (affine) lattice is left unchanged by any number of
+    sweeps with any fixed set, and it is the only such configuration with that border, and from any interior
+    positions the sweeps converge to it (a regular boundary yields the regular lattice).  For all rational
+    origins and steps. *)
+Definition lattice_size (nx ny : nat) : Prop := 1 <= nx /\ 1 <= ny.
 Definition C15_lattice_stmt (size_ok : nat -> nat -> Prop) : Prop :=
   forall nx ny, size_ok nx ny ->
     let cells := struct_cells nx ny in
@@ -254,22 +254,16 @@ Proof. exact convergence. Qed.
 Theorem C15_smooth_converges : C15_smooth_converges_stmt.
 Proof. exact smooth_converges. Qed.
 
-(** structured maps: the finite part, for every size up to 10 x 10.  The check [lattice_ok_all] is evaluated once
-    for the reference quad table (Proofs/C15_Lattice.v, prebuilt); when the tabulated QuadCell of this run is
-    that table (conversion) the result is reused, otherwise it is recomputed here for the tabulated one. *)
-Lemma lattice_ok_all_run : lattice_ok_all quad_ct = true.
-Proof.
-  first [ exact (eq_ind quad_ref (fun ct => lattice_ok_all ct = true) lattice_ok_all_ref quad_ct eq_refl)
-        | vm_compute; reflexivity ].
-Qed.
+(** structured maps of every size.  The size-generic proof (Proofs/C15_LatticeGen.v, prebuilt: membership of a
+    lattice point in a structured cell, [common_side] of two structured cells, neighbours through the cell
+    connections, harmonic lattice coordinates, reachability of the border) holds for every cell type that passes
+    the finite check [quad_ok]; it is evaluated here for the tabulated QuadCell of this run (it accepts any
+    order / orientation of [edge_pairs] and [side_indexes], and rejects diagonals, missing or duplicate sides). *)
+Lemma quad_ok_run : quad_ok quad_ct = true.
+Proof. vm_compute. reflexivity. Qed.
 
-Theorem C15_lattice_partial : C15_lattice_stmt lattice_size.
-Proof.
-  intros nx ny [Hx Hy].
-  pose proof (lattice_ok_all_sound quad_ct lattice_ok_all_run nx ny Hx Hy) as OK.
-  pose proof (lattice_ok_sound quad_ct nx ny OK) as (A & B & C & D).
-  exact (conj A (conj B (conj C (conj D (lattice_converges quad_ct nx ny OK))))).
-Qed.
+Theorem C15_lattice : C15_lattice_stmt lattice_size.
+Proof. intros nx ny [Hx Hy]. exact (lattice_all_sizes quad_ct quad_ok_run nx ny Hx Hy). Qed.
 
 (** ** the hypotheses are satisfiable: the 4 x 4 structured map (3 x 3 inner points) with a regular lattice *)
 Example C15_hypotheses_satisfiable :
@@ -281,14 +275,17 @@ Example C15_hypotheses_satisfiable :
   /\ (forall jn, In jn sch -> fst jn < length h).
 Proof.
   intros sch h.
-  assert (OK : lattice_ok quad_ct 4 4 = true) by (apply (lattice_ok_all_sound quad_ct lattice_ok_all_run); unfold max_size; lia).
   assert (L : length h = struct_n 4 4) by (unfold h, lattice; rewrite map_length, seq_length; reflexivity).
+  assert (H1 : 1 <= 4) by lia.
   split; [vm_compute; reflexivity|]. split; [apply schedule_NoDup|].
-  split; [rewrite L; apply wf_schedb_sound; vm_compute; reflexivity|].
-  split; [intros jn Hin; apply (lattice_harmonic quad_ct 4 4 OK []); exact Hin|].
-  split; [apply all_reach_sound; vm_compute; reflexivity|].
+  split; [rewrite L; apply (gen_wf quad_ct 4 4 quad_ok_run H1 H1)|].
+  split; [intros jn Hin; apply (gen_harmonic quad_ct 4 4 quad_ok_run H1 H1 []); exact Hin|].
+  split; [apply (gen_reach quad_ct 4 4 quad_ok_run H1 H1)|].
   intros jn Hin. rewrite L. exact (proj1 (schedule_wf_lt _ _ _ _ _ Hin)).
 Qed.
+
+Example C15_lattice_size_satisfiable : lattice_size 1 1 /\ lattice_size 37 1000.
+Proof. unfold lattice_size. lia. Qed.
 
 Example C15_frame_hypothesis_satisfiable :
   is_boundary quad_ct (struct_cells 2 2) 0 = true /\ is_boundary quad_ct (struct_cells 2 2) 4 = false.
@@ -308,4 +305,4 @@ Print Assumptions C15_backport.
 Print Assumptions C15_fast_model.
 Print Assumptions C15_convergence.
 Print Assumptions C15_smooth_converges.
-Print Assumptions C15_lattice_partial.
+Print Assumptions C15_lattice.
